@@ -1,7 +1,9 @@
 package checks
 
 import (
+	"bytes"
 	"fmt"
+	"io"
 	"math/rand"
 	"net/http"
 	"net/http/httptest"
@@ -66,6 +68,19 @@ func (b *c11base) Write(p []byte) (int, error) {
 	return len(p), nil
 }
 
+// ReadFrom: net/http's own response writer implements io.ReaderFrom (sendfile fast path), so
+// io.Copy(w, src) reaches it directly if anything in front of it forwards the interface.
+func (b *c11base) ReadFrom(r io.Reader) (int64, error) {
+	n, err := io.Copy(io.Discard, r)
+	b.l.add("baseWrite", fmt.Sprintf("readfrom:%d", n), nil)
+	return n, err
+}
+
+// plainReader has no WriteTo, so io.Copy looks for ReaderFrom on the destination.
+type plainReader struct{ r io.Reader }
+
+func (p plainReader) Read(b []byte) (int, error) { return p.r.Read(b) }
+
 type wrapU struct{ http.ResponseWriter }
 
 func (w wrapU) UnderlyingResponseWriter() http.ResponseWriter { return w.ResponseWriter }
@@ -77,7 +92,7 @@ func (w wrapW) Unwrap() http.ResponseWriter { return w.ResponseWriter }
 // --- programs ---
 
 type c11op struct {
-	Op   string // putS delS delAllS putC delC getS getC header write wrapU wrapW
+	Op   string // putS delS delAllS putC delC getS getC header write copy wrapU wrapW
 	K, V string
 	N    int
 }
@@ -88,7 +103,7 @@ func (o c11op) String() string {
 		return fmt.Sprintf("%s(%s=%s)", o.Op, o.K, o.V)
 	case "delS", "delC", "getS", "getC", "delAllS":
 		return fmt.Sprintf("%s(%s)", o.Op, o.K)
-	case "header", "write":
+	case "header", "write", "copy":
 		return fmt.Sprintf("%s(%d)", o.Op, o.N)
 	}
 	return o.Op
@@ -119,8 +134,10 @@ func c11gen(r *rand.Rand) []c11op {
 			p = append(p, c11op{Op: "getC", K: k})
 		case x < 84:
 			p = append(p, c11op{Op: "header", N: []int{200, 302, 404, 500}[r.Intn(4)]})
-		case x < 93:
+		case x < 90:
 			p = append(p, c11op{Op: "write", N: r.Intn(64)})
+		case x < 93:
+			p = append(p, c11op{Op: "copy", N: 1 + r.Intn(64)}) // body streamed with io.Copy
 		default:
 			if depth < 4 {
 				depth++
@@ -185,6 +202,9 @@ func c11run(prog []c11op, sessStart, cookStart c11state, failS, failC bool) (*c1
 			case "write":
 				l.add("op", o.String(), nil)
 				w.Write(make([]byte, o.N))
+			case "copy":
+				l.add("op", o.String(), nil)
+				io.Copy(w, plainReader{bytes.NewReader(make([]byte, o.N))})
 			case "wrapU":
 				w = wrapU{w}
 			case "wrapW":
@@ -223,7 +243,7 @@ func c11check(prog []c11op, l *c11log, gets []c11get, sessStart, cookStart c11st
 	var wantS, wantC []string
 	wrote := false
 	for _, o := range prog {
-		if o.Op == "header" || o.Op == "write" {
+		if o.Op == "header" || o.Op == "write" || o.Op == "copy" {
 			wrote = true
 			break
 		}
@@ -295,7 +315,7 @@ func c11check(prog []c11op, l *c11log, gets []c11get, sessStart, cookStart c11st
 		// the first flush failed: nothing of THAT write may have been released; later writes may pass
 		firstWriteSeq := 0
 		for _, e := range l.entries {
-			if e.Kind == "op" && (strings.HasPrefix(e.Text, "header(") || strings.HasPrefix(e.Text, "write(")) {
+			if e.Kind == "op" && (strings.HasPrefix(e.Text, "header(") || strings.HasPrefix(e.Text, "write(") || strings.HasPrefix(e.Text, "copy(")) {
 				firstWriteSeq = e.Seq
 				break
 			}
@@ -307,7 +327,7 @@ func c11check(prog []c11op, l *c11log, gets []c11get, sessStart, cookStart c11st
 					// is this base event caused by the first write op? it is if no other write op lies between
 					between := false
 					for _, o := range l.entries {
-						if o.Kind == "op" && o.Seq > firstWriteSeq && o.Seq < e.Seq && (strings.HasPrefix(o.Text, "header(") || strings.HasPrefix(o.Text, "write(")) {
+						if o.Kind == "op" && o.Seq > firstWriteSeq && o.Seq < e.Seq && (strings.HasPrefix(o.Text, "header(") || strings.HasPrefix(o.Text, "write(") || strings.HasPrefix(o.Text, "copy(")) {
 							between = true
 						}
 					}
@@ -362,7 +382,7 @@ func c11Unit(c *RunCtx, unit int) {
 		seenWrite := false
 		for _, o := range prog {
 			switch o.Op {
-			case "header", "write":
+			case "header", "write", "copy":
 				writes++
 				seenWrite = true
 			case "wrapU", "wrapW":
@@ -377,7 +397,7 @@ func c11Unit(c *RunCtx, unit int) {
 		}
 		first := "none"
 		for _, o := range prog {
-			if o.Op == "header" || o.Op == "write" {
+			if o.Op == "header" || o.Op == "write" || o.Op == "copy" {
 				first = o.Op
 				break
 			}
@@ -421,7 +441,7 @@ func min(a, b int) int {
 func init() {
 	register(&Check{
 		ID: "C11", Level: "exploration",
-		Rule:  "random handler programs (0-25 operations over putS/delS/delAllS/putC/delC/getS/getC/WriteHeader/Write and nesting the writer in wrappers exposing UnderlyingResponseWriter() or Unwrap(), depth <= 4; in 1/6 of the programs one of the stores fails its first WriteState and the handler recovers and carries on) executed by a handler behind the real LoadClientStateMiddleware with two recording stores and a recording base writer sharing one sequence counter. Offline checker over the log: each store receives <= 1 delivery, exactly the operations made for it before the first write, same order/keys/values, never the other store's; every delivery precedes the first header or body byte released to the base writer; operations after the first write are never delivered; every read returns the request-start value whatever was put earlier. distinct_nontrivial = distinct program shapes (#ops, #ops before first write, #writes, wrapper depth, kind of first write).",
+		Rule:  "random handler programs (0-25 operations over putS/delS/delAllS/putC/delC/getS/getC/WriteHeader/Write/io.Copy (the base writer implements io.ReaderFrom like net/http's) and nesting the writer in wrappers exposing UnderlyingResponseWriter() or Unwrap(), depth <= 4; in 1/6 of the programs one of the stores fails its first WriteState and the handler recovers and carries on) executed by a handler behind the real LoadClientStateMiddleware with two recording stores and a recording base writer sharing one sequence counter. Offline checker over the log: each store receives <= 1 delivery, exactly the operations made for it before the first write, same order/keys/values, never the other store's; every delivery precedes the first header or body byte released to the base writer; operations after the first write are never delivered; every read returns the request-start value whatever was put earlier. distinct_nontrivial = distinct program shapes (#ops, #ops before first write, #writes, wrapper depth, kind of first write).",
 		Units: func(t string) int { return tierN(t, 64, 256) },
 		Run:   c11Unit,
 		Floors: func(t string) map[string]int {
